@@ -351,3 +351,43 @@ DEADCODE = {
     "return_then_loop": "def f():\n    return c(1)\n    while t(2):\n        c(3)\n",
     "if_after_return": "def f():\n    return c(1)\n    if t(2):\n        c(3)\n    return c(4)\n",
 }
+
+
+# ---------------------------------------------------------------------------------------
+# CH(c): nesting chains - at most one compound statement per block, terminators only in blocks without a
+# compound.  Reaches depth-c nesting (e.g. an if inside a while-else inside a for) at a fraction of S(c).
+
+def chain_blocks(budget: int, in_loop: bool) -> Iterator[tuple]:
+    terms = TERMS_LOOP if in_loop else TERMS_TOP
+    if budget == 0:
+        for t in terms:
+            yield ((), t)
+        return
+    for c in chain_compounds(budget, in_loop):
+        yield ((c,), "")
+
+
+def chain_compounds(b: int, in_loop: bool) -> Iterator[tuple]:
+    inner = b - 1
+    for b1 in range(inner + 1):
+        b2 = inner - b1
+        for then in chain_blocks(b1, in_loop):
+            if b2 == 0:
+                yield ("if", then, None)
+            for els in chain_blocks(b2, in_loop):
+                yield ("if", then, els)
+        for kind in ("while", "for"):
+            for body in chain_blocks(b1, True):
+                if b2 == 0:
+                    yield (kind, body, None)
+                for els in chain_blocks(b2, in_loop):
+                    yield (kind, body, els)
+
+
+CH_COUNTS = {0: 2, 1: 30, 2: 750, 3: 23970, 4: 871050}
+
+
+def chain_sources(c: int, mode: str = "marked") -> Iterator[Tuple[str, str]]:
+    """(label, source) for all nesting chains with exactly c compounds."""
+    for i, sk in enumerate(chain_blocks(c, False)):
+        yield f"CH{c}/{mode}/{i}", render(sk, mode)
